@@ -398,7 +398,7 @@ func (a *List) M__ne__(other Object) (Object, error) {
 
 type sortable struct {
 	l        *List
-	keyFunc  Object
+	keys     []Object // keyFunc(item) for each item of l or nil if there is no keyFunc
 	reverse  bool
 	firstErr error
 }
@@ -438,6 +438,9 @@ func (s ptrSortable) Swap(i, j int) {
 			s.s.firstErr = err
 		}
 	}
+	if s.s.keys != nil {
+		s.s.keys[i], s.s.keys[j] = s.s.keys[j], s.s.keys[i]
+	}
 }
 
 func (s ptrSortable) Less(i, j int) bool {
@@ -456,21 +459,8 @@ func (s ptrSortable) Less(i, j int) bool {
 		return false
 	}
 
-	if s.s.keyFunc != None {
-		itemI, err = Call(s.s.keyFunc, Tuple{itemI}, nil)
-		if err != nil {
-			if s.s.firstErr == nil {
-				s.s.firstErr = err
-			}
-			return false
-		}
-		itemJ, err = Call(s.s.keyFunc, Tuple{itemJ}, nil)
-		if err != nil {
-			if s.s.firstErr == nil {
-				s.s.firstErr = err
-			}
-			return false
-		}
+	if s.s.keys != nil {
+		itemI, itemJ = s.s.keys[i], s.s.keys[j]
 	}
 
 	var cmpResult Object
@@ -514,7 +504,22 @@ func SortInPlace(l *List, kwargs StringDict, funcName string) error {
 	if err != nil {
 		return err
 	}
-	s := ptrSortable{&sortable{l, keyFunc, ok, nil}}
+	// Call the key function exactly once for each item before sorting
+	var keys []Object
+	if keyFunc != None {
+		items := l.Items
+		keys = make([]Object, len(items))
+		for i, item := range items {
+			keys[i], err = Call(keyFunc, Tuple{item}, nil)
+			if err != nil {
+				return err
+			}
+		}
+		if len(l.Items) != len(keys) {
+			return ExceptionNewf(ValueError, "list modified during sort")
+		}
+	}
+	s := ptrSortable{&sortable{l, keys, ok, nil}}
 	sort.Stable(s)
 	return s.s.firstErr
 }
